@@ -45,3 +45,25 @@ func main() {
 	s.RunAll([]*Prog{p})
 	fmt.Printf("build+run %v ok=%v err=%q out=%q exit=%d\n", time.Since(t2), p.BuildOK, p.BuildErr, p.Stdout, p.Exit)
 }
+
+func TestCPULimit(t *testing.T) {
+	s, err := NewScratch()
+	if err != nil {
+		t.Fatal(err)
+	}
+	defer s.Remove()
+	loop := &Prog{Name: "loop", GoSrc: []byte("package main\n\nfunc main() {\n\tfor {\n\t}\n}\n")}
+	exit3 := &Prog{Name: "exit3", GoSrc: []byte("package main\n\nimport \"os\"\n\nfunc main() {\n\tos.Exit(3)\n}\n")}
+	if err := s.BuildAll([]*Prog{loop, exit3}); err != nil {
+		t.Fatal(err)
+	}
+	t0 := time.Now()
+	s.RunAll([]*Prog{loop, exit3})
+	if !loop.TimedOut || loop.Exit != -2 {
+		t.Fatalf("busy loop: timedOut=%v exit=%d", loop.TimedOut, loop.Exit)
+	}
+	if exit3.TimedOut || exit3.Exit != 3 {
+		t.Fatalf("exit 3: timedOut=%v exit=%d", exit3.TimedOut, exit3.Exit)
+	}
+	fmt.Println("cpu-limited run took", time.Since(t0))
+}
